@@ -121,7 +121,7 @@ def gen_single_ops(rng, aid, n_iter, with_solve=True, results_prob=0.15, after_s
     for k in (gen_batches(rng, after_solve_iters) if after_solve_iters > 0 else []):
         ops.append({"a": aid, "op": "iterate", "k": k})
     if refine_ops and rng.random() < 0.5:
-        ops.append({"a": aid, "op": "refine", "n": rng.choice([-1, 1, 5, 50])})
+        ops.append({"a": aid, "op": "refine", "n": rng.choice([-1, 0, 1, 5, 50])})
         ops.append({"a": aid, "op": "results"})
     return ops
 
@@ -131,6 +131,8 @@ def gen_evq(rng, aid, spec):
     a pure query API (C17), legal at any moment."""
     lower, upper = spec.get("lower"), spec.get("upper")
     u = rng.random()
+    if rng.random() < 0.06 and spec.get("lower") is not None:
+        return {"a": aid, "op": "evq", "q": "setbounds_same"}
     if rng.random() < 0.2:
         # a read of the search information instead: covering-interval lookup, or a walk abandoned after a few items
         if rng.random() < 0.6:
@@ -193,6 +195,17 @@ def add_listener_fault(rng, plan, aid="S0", hi=20):
         if rng.random() < 0.5:
             plan["ops"].append({"a": aid, "op": "iterate", "k": rng.randint(1, 5)})
     return plan
+
+
+def sprinkle_misc(rng, ops, aid, prob=0.06):
+    """Now and then: a SaveProgress/LoadProgress round trip, or a listener attached in mid-run."""
+    if rng.random() >= prob:
+        return ops
+    idx = [i for i, o in enumerate(ops) if o.get("a") == aid and o["op"] in ("iterate", "solve")]
+    if not idx:
+        return ops
+    i = rng.choice(idx)
+    return ops[:i + 1] + [{"a": aid, "op": rng.choice(["saveload", "addl"])}] + ops[i + 1:]
 
 
 def sprinkle_clone(rng, ops, aid, prob=0.05):
